@@ -104,7 +104,7 @@ theorem C13_limit_is_ten : maxAgents = Rie.Gen.maxAgentsAllowed ∧ maxAgents = 
 -- non-vacuity: a registration after the first delivery is refused and leaves the state as it was
 example :
     let s := step 0 (step 0 {} (.invoke 0 5 "h")) .rtNext
-    s.regOn = false ∧ (step 0 s (.register "late" [.invoke] "")).out = ["late.register=403,Extension.RegistrationClosed"] ∧
+    s.regOn = false ∧ (step 0 s (.register "late" [.invoke] "")).outs = ["late.register=403,Extension.RegistrationClosed"] ∧
       (step 0 s (.register "late" [.invoke] "")).core = s.core := by decide
 
 end Rie.Props.C13
